@@ -280,8 +280,10 @@ func (r *Writer) process(ops []*operation.QueuedOperation, protocolVersion uint6
 
 	// Sidetree spec allows for one operation per suffix in the batch
 	// Process additional operations for suffix in the next batch
+	// (they go straight back to the queue, also while the writer is being stopped: they have been accepted before and
+	// have just left the queue together with the batch - refusing them now would lose them)
 	for _, op := range anchoringInfo.AdditionalOperations {
-		if e := r.Add(op, protocolVersion); e != nil {
+		if _, e := r.batchCutter.Add(op, protocolVersion); e != nil {
 			// this error should never happen since parsing of this operation has already been done for the previous batch
 			r.logger.Warn("Unable to add additional operation to the next batch",
 				logfields.WithSuffix(op.UniqueSuffix), log.WithError(e))
